@@ -62,6 +62,7 @@ class Function:
         self.d = d
         self.unit = unit
         self.id = d["id"]
+        self.uid = d.get("uid", d["id"])      # cache key: differs between a function and its inlined view
         self.name = d["name"]
         self.qname = d["qname"]
         self.fq = d.get("fq", "")
@@ -433,6 +434,19 @@ class Unit:
     def errors(self):
         return [x for x in self.diagnostics if x["level"] == "error"]
 
+    def inlined_callees(self):
+        """ids of the helpers that some function of this unit inlines"""
+        if getattr(self, "_inl_callees", None) is None:
+            from .inline import _call_sites
+            s = set()
+            for f in self.functions:
+                if f.invalid:
+                    continue
+                for _b, _i, _st, g in _call_sites(f):
+                    s.add(g.id)
+            self._inl_callees = s
+        return self._inl_callees
+
 
 class FactBase:
     """all units of one run"""
@@ -441,8 +455,14 @@ class FactBase:
         self.units = [Unit(p) for p in paths]
 
     def functions(self, rec=None, name=None, file=None, valid_only=True,
-                  pred=None):
+                  pred=None, raw=False):
+        """analysable functions.  By default each function is returned in its INLINED view (calls to non-public
+        helpers replaced by the helper's body, see inline.py) and helpers that are inlined at every one of their call
+        sites are not returned on their own: they are judged in the context of each caller.  raw=True gives the
+        functions as written."""
+        from .inline import inline, standalone
         for u in self.units:
+            called = None
             for f in u.functions:
                 if valid_only and f.invalid:
                     continue
@@ -454,6 +474,13 @@ class FactBase:
                     continue
                 if pred is not None and not pred(f):
                     continue
+                if not raw:
+                    if not standalone(f):
+                        if called is None:
+                            called = u.inlined_callees()
+                        if f.id in called:
+                            continue
+                    f = inline(f)
                 yield f
 
     def records(self, tmpl=None, dependent=False):
@@ -465,9 +492,13 @@ class FactBase:
                     continue
                 yield r
 
-    def callee_fn(self, f, call_stmt):
+    def callee_fn(self, f, call_stmt, raw=False):
         """Function object of a call's resolved callee, if it was extracted"""
         c = call_stmt.get("callee")
         if not c:
             return None
-        return f.unit.fn_by_id.get(c["id"])
+        g = f.unit.fn_by_id.get(c["id"])
+        if g is None or raw:
+            return g
+        from .inline import inline
+        return inline(g)
